@@ -1,4 +1,5 @@
 import Zc.Model.ReplyNet
+import Zc.Model.NameText
 import Driver.C12
 /-! driver commands for C11's socket level (`Model/ReplyNet.lean`): `c11net` (trace acceptance with the physical datagrams of
 every block: socket, complete destination sockaddr, id, flags, questions, class fields), `c11bytes` (the two reply constructors
@@ -103,9 +104,9 @@ the bytes `packets()` gives for the `DNSOutgoing` built by `construct_outgoing_u
 def c11bytes (toks : List String) : String :=
   match (do
     let uc ← Tok.bool; let us ← Tok.bool; let id ← Tok.nat
-    let qs ← Tok.list EQuestion.parse
-    let ans ← Tok.list ERecord.parse
-    let adds ← Tok.list ERecord.parse
+    let qs ← Tok.list (EQuestion.parseN NameText.Tok.nameT)
+    let ans ← Tok.list (ERecord.parseN NameText.Tok.nameT)
+    let adds ← Tok.list (ERecord.parseN NameText.Tok.nameT)
     Tok.done
     pure (uc, us, id, qs, ans, adds) : Tok _).run toks with
   | some ((uc, us, id, qs, ans, adds), _) =>
